@@ -43,7 +43,8 @@ AugPathExists(E, mu, Vs) == AltReach(E, mu)[2] \cap FreeV(mu, Vs) # {}
 KoenigCover(E, mu) ==
     LET Z == AltReach(E, mu) IN [u |-> DOMAIN mu \ Z[1], v |-> Z[2]]
 
-IsCover(E, cu, cv) == \A e \in E : e[1] \in cu \/ e[2] \in cv
+(* written as an empty filter: inside an action TLC would treat  \A e : P \/ Q  as 2^|E| action disjuncts *)
+IsCover(E, cu, cv) == {e \in E : e[1] \notin cu /\ e[2] \notin cv} = {}
 
 (* p = <<u0, v0, u1, v1, ..., u_{m-1}, v_{m-1}>> is an augmenting path of mu *)
 IsAugPath(E, mu, Vs, p) ==
